@@ -230,3 +230,67 @@ fn control_flow_statements__leaf_rules() {
     leaf_case(1);
     leaf_case(2);
 }
+
+// =====================================================================================================
+// C04 / C09: Resolver::lookup_var_info / lookup_func -- innermost scope first; within a scope the LATEST variable declaration and
+// the FIRST function definition (duplicates in one block are rejected by predeclare, so first == only)
+// =====================================================================================================
+fn leak_vec<T: 'static>(items: Vec<T>, arena: &'static Arena) -> Vec<T, &'static Arena> {
+    let n = items.len();
+    let b: &'static mut [T] = Box::leak(items.into_boxed_slice());
+    unsafe { Vec::from_raw_parts_in(b.as_mut_ptr(), n, n, arena) }
+}
+static NAMES: [&str; 3] = ["a", "b", "ab"];
+static SPAN0: Span = Range { start: 0, end: 0 };
+
+// @harness property=C04,C09 fn=Resolver::lookup_var_info+lookup_func kind=bounded tier=quick cfg=release timeout=600 domain="bounded: 3 scopes x 2 entries; every assignment of the names {a, b, ab} to the 6 variable entries and the 6 function entries; every queried name incl. an undeclared one"
+#[kani::proof]
+#[kani::unwind(8)]
+fn resolver_lookup__innermost_scope_wins() {
+    let arena = bk::mk_arena(1);
+    let mut r = Resolver::new(arena);
+    let pick = || -> usize { let k: usize = kani::any(); kani::assume(k < 3); k };
+    let vn: [usize; 6] = [pick(), pick(), pick(), pick(), pick(), pick()];
+    let ventry = |k: usize| -> VariableScopeEntry<'static> { (NAMES[vn[k]], ValueType::Number, &SPAN0, LocalId(k as u32)) };
+    r.variable_scopes = leak_vec(vec![
+        leak_vec(vec![ventry(0), ventry(1)], arena),
+        leak_vec(vec![ventry(2), ventry(3)], arena),
+        leak_vec(vec![ventry(4), ventry(5)], arena),
+    ], arena);
+    let fnames: [usize; 6] = [pick(), pick(), pick(), pick(), pick(), pick()];
+    let fentry = |k: usize| FunctionSig { name: NAMES[fnames[k]], id: FunctionId(k as u32), param_names: &[], name_span: &SPAN0, return_type: ValueType::Dynamic };
+    r.function_scopes = leak_vec(vec![
+        leak_vec(vec![fentry(0), fentry(1)], arena),
+        leak_vec(vec![fentry(2), fentry(3)], arena),
+        leak_vec(vec![fentry(4), fentry(5)], arena),
+    ], arena);
+    let q = pick();
+    // variables: innermost scope, latest declaration
+    let mut expect_v: Option<u32> = None;
+    let mut k = 0;
+    while k < 6 {
+        if vn[k] == q {
+            expect_v = Some(k as u32);
+        }
+        k += 1;
+    }
+    assert!(r.lookup_var_info(NAMES[q]).map(|(_, id)| id.0) == expect_v, "post: a variable name resolves to the innermost scope's latest declaration (None if undeclared)");
+    assert!(r.lookup_var_info("zz").is_none(), "post: an undeclared variable is not found");
+    // functions: innermost scope, first definition in that scope
+    let mut expect_f: Option<u32> = None;
+    let mut s = 0;
+    while s < 3 {
+        if fnames[2 * s] == q {
+            expect_f = Some(2 * s as u32);
+        } else if fnames[2 * s + 1] == q {
+            expect_f = Some(2 * s as u32 + 1);
+        }
+        s += 1;
+    }
+    assert!(r.lookup_func(NAMES[q]).map(|sig| sig.id.0) == expect_f, "post: a function name resolves to the innermost block that defines it (inner definitions shadow outer ones)");
+    assert!(r.lookup_func("zz").is_none(), "post: an undefined function is not found");
+    kani::cover!(expect_v == Some(0), "cover: variable found only in the outermost scope");
+    kani::cover!(expect_f == Some(5), "cover: function defined in the innermost block");
+    kani::cover!(expect_v.is_none(), "cover: undeclared");
+    std::mem::forget(r);
+}
